@@ -146,7 +146,7 @@ Lemma cp_wedge dst src lp :
   rocfl_read_pos PLogicalPath (serde_escape lp) = None.
 Proof. intros _. apply rocfl_read_wedge. Qed.
 
-(** * the content directory names create_object accepts (repo.rs:572-583) *)
+(** * the content directory names create_object accepts (repo.rs:579-590) *)
 Lemma starts_with_app p s : starts_with p (p ++ s) = true.
 Proof.
   induction p as [|c p IH]; [reflexivity|]. cbn [app starts_with].
@@ -257,30 +257,57 @@ Proof.
   apply decode_string_escape_inv in E as [-> _]. cbn [post_visit]. apply content_path_empty_cdir_unreadable.
 Qed.
 
-(** create_object *)
-Lemma create_object_id_stored id t : create_object_id id = Ok t -> t = rust_trim id /\ is_empty t = false.
+(** create_object's id (repo.rs:551-557, 577) *)
+Lemma trim_nonblank_nonempty id : is_empty (rust_trim id) = false -> is_empty id = false.
+Proof. destruct id; [intros H; vm_compute in H; discriminate|reflexivity]. Qed.
+
+Lemma create_object_id_stored id t :
+  create_object_id id = Ok t -> t = id /\ is_empty (rust_trim id) = false /\ is_empty id = false.
 Proof.
   unfold create_object_id. destruct (is_empty (rust_trim id)) eqn:E; [discriminate|].
-  intros H. injection H as <-. split; [reflexivity|exact E].
+  destruct (is_empty id) eqn:E2; [discriminate|].
+  intros H. injection H as <-. auto.
 Qed.
 
-Lemma create_object_id_same id t :
-  create_object_id id = Ok t -> c10_id_trimmed id = false -> t = id.
+(** the id is stored exactly as given: no exception *)
+Lemma create_object_id_same id t : create_object_id id = Ok t -> t = id.
+Proof. intros H. apply (create_object_id_stored _ _ H). Qed.
+
+(** accepted exactly when something is left after trimming Unicode white space *)
+Lemma create_object_id_accepts_iff id :
+  create_object_id id = Ok id <-> is_empty (rust_trim id) = false.
 Proof.
-  intros H K. apply create_object_id_stored in H as [-> _].
-  unfold c10_id_trimmed in K. apply negb_false_iff in K. now apply bytes_eqb_eq in K.
+  split.
+  - intros H. apply (create_object_id_stored _ _ H).
+  - intros H. unfold create_object_id. now rewrite H, (trim_nonblank_nonempty _ H).
 Qed.
 
-Lemma create_object_id_differs id t :
-  create_object_id id = Ok t -> c10_id_trimmed id = true -> t <> id.
+Lemma create_object_id_refuses_blank id :
+  is_empty (rust_trim id) = true -> create_object_id id = Err.
+Proof. intros H. unfold create_object_id. now rewrite H. Qed.
+
+Lemma create_object_id_total id :
+  (is_empty (rust_trim id) = false /\ create_object_id id = Ok id) \/
+  (is_empty (rust_trim id) = true /\ create_object_id id = Err).
 Proof.
-  intros H K. apply create_object_id_stored in H as [-> _]. intros E.
-  unfold c10_id_trimmed in K. apply negb_true_iff in K. rewrite E, bytes_eqb_refl in K. discriminate.
+  destruct (is_empty (rust_trim id)) eqn:E.
+  - right. split; [reflexivity|now apply create_object_id_refuses_blank].
+  - left. split; [reflexivity|now apply create_object_id_accepts_iff].
 Qed.
 
-Lemma create_object_id_untrimmed id :
-  is_empty id = false -> c10_id_trimmed id = false -> create_object_id id = Ok id.
+(** an accepted id is written so that every later command reads the very string given *)
+Lemma create_object_id_roundtrip id t :
+  create_object_id id = Ok t -> utf8_valid id = true ->
+  t = id /\ rocfl_read_pos PId (serde_escape t) = Some id.
 Proof.
-  intros Hne K. unfold c10_id_trimmed in K. apply negb_false_iff in K. apply bytes_eqb_eq in K.
-  unfold create_object_id. now rewrite K, Hne.
+  intros H U. rewrite (create_object_id_same _ _ H). split; [reflexivity|].
+  now apply owned_text_roundtrip.
+Qed.
+
+(** historical (before 031a721): the trimmed string was stored *)
+Lemma create_object_id_before_fix_differs id t :
+  create_object_id_before_fix id = Ok t -> rust_trim id <> id -> t <> id.
+Proof.
+  unfold create_object_id_before_fix. destruct (is_empty (rust_trim id)); [discriminate|].
+  intros H N. injection H as <-. exact N.
 Qed.
